@@ -78,6 +78,10 @@ func HarnessC03Commit() {
 	nr := 1 + svPick("rcpts", svParam("rcpts", 2))
 	s := hxNewSrv([]string{"8BITMIME", "ENHANCEDSTATUSCODES"})
 	s.maxDev = svParam("maxdev", 2)
+	s.wideEOD = true // an end-of-data reply of any class: only 2yz acknowledges the message
+	if svParam("ml", 0) == 1 {
+		s.multiline = svPick("multiline-replies", 2) == 1
+	}
 	c := hxNewClient(s)
 	// entry point: Dial + Send on the client's own connection, or DialAndSend
 	// (a connection private to the call)
